@@ -191,7 +191,20 @@ def writeStore (j : Json) : Json :=
           | some r => jrec r
           | none => Json.mkObj [("err", .str "row-does-not-decrypt"), ("id", jint it.id)]
         (p.name, Json.arr recs.toArray)
+    -- what the library's look-ups by searchable ciphertext must find: every visible record by (kind, category, name);
+    -- for every distinct tag (names starting with '~' cannot be expressed in a filter) the records carrying it
+    let visible : List (List Rec) := s.profiles.map fun p =>
+      match unwrapProfileKey P sk p.key with
+      | none => []
+      | some k =>
+        ((s.items.filter fun it => it.pid == p.id).filter fun it => it.expiry != some pastExpiry).filterMap fun it =>
+          decryptRec P k it (s.tags.filter fun t => t.itemId == it.id)
+    let fetched := (visible.map List.length).sum
+    let tagHits := (visible.map fun recs =>
+      let distinct := (recs.flatMap (·.tags)).eraseDups.filter fun t => t.name.head? != some 0x7e
+      (distinct.map fun t => (recs.filter fun r => r.tags.contains t).length).sum).sum
     Json.mkObj [("default_profile", .str (str! j "default_profile")), ("profiles", Json.mkObj profiles),
+                ("fetched", jnat fetched), ("tag_hits", jnat tagHits),
                 ("n_items", jnat s.items.length), ("n_tags", jnat s.tags.length)]
 
 /-! ### the documented constants, in the shape the harness extracts them from the source -/
